@@ -158,14 +158,41 @@ theorem periodic_srf_rot2d (sched : Sched) (hs : sched.Admissible) (θ : ℝ) (m
       srfField sched (derot2 θ) anis sf (modesGrid mreq (deltaK period anis) 2) z1 z2 N x 2 X i :=
   periodic_srf sched hs (derot2 θ) mreq period anis sf z1 z2 N 2 X x x' d₀ c hL ha (derot2_rows θ d₀ hd₀) hshift i
 
+/-- `matrix_derotate(dim, angles)` as the code builds it for `dim ≤ 3` has orthonormal rows, for every angle
+    (2-D: one Givens rotation; 3-D: `G₀₁(−α)·G₀₂(β)·G₁₂(−γ)`; 1-D: identity) -/
+theorem derot_rows_orthonormal (dim : Nat) (hdim : dim ≤ 3) (angles : Nat → ℝ) : RowsON dim (derot dim angles) :=
+  rowsON_derot dim hdim angles
+
+/-- the 2-D derotation written out: main axes `(cos θ, sin θ)` and `(−sin θ, cos θ)` -/
+theorem derot_two (angles : Nat → ℝ) (d e : Nat) (hd : d < 2) (he : e < 2) :
+    derot 2 angles d e = derot2 (angles 0) d e := by
+  interval_cases d <;> interval_cases e <;> simp [derot, givens, derot2]
+
+/-- the statement of the property at SRF level, dim 1-3, any anisotropy, any rotation angles:
+    the field repeats when every point is moved by an integer multiple of `L_{d₀}` along the `d₀`-th main axis of the
+    model (row `d₀` of `matrix_derotate(dim, angles)`, i.e. column `d₀` of the rotation) -/
+theorem periodic_srf_rotated (sched : Sched) (hs : sched.Admissible) (dim : Nat) (hdim : dim ≤ 3) (angles : Nat → ℝ)
+    (mreq : Nat → Nat) (period anis : Nat → ℝ) (sf z1 z2 : Nat → ℝ) (N X : Nat) (x x' : Nat → Nat → ℝ)
+    (d₀ : Nat) (hd₀ : d₀ < dim) (c : Nat → ℤ)
+    (hL : ∀ d < dim, period d ≠ 0) (ha : ∀ d < dim, anisP anis d ≠ 0)
+    (hshift : ∀ e < dim, ∀ i < X, x' e i = x e i + (c i : ℝ) * period d₀ * derot dim angles d₀ e) (i : Nat) :
+    srfField sched (derot dim angles) anis sf (modesGrid mreq (deltaK period anis) dim) z1 z2 N x' dim X i =
+      srfField sched (derot dim angles) anis sf (modesGrid mreq (deltaK period anis) dim) z1 z2 N x dim X i :=
+  periodic_srf sched hs (derot dim angles) mreq period anis sf z1 z2 N dim X x x' d₀ c hL ha
+    (fun d hd => rowsON_derot dim hdim angles d hd d₀ hd₀) hshift i
+
 /-! ## after updates: histories of `update(model, seed, period, mode_no)` calls (setters, `SRF.__call__`) -/
+
+section lawfree
+set_option linter.unusedSectionVars false
+variable {α : Type} [Arith α] [Transc α] [DecidableLT α] [DecidableLE α] [Inhabited α]
 
 set_option linter.unusedSimpArgs false in
 /-- one `update` call keeps the invariant "the stored grid is the grid derived from the stored period, the stored
     model's anisotropy and the stored mode counts, and the amplitudes were redrawn after the last grid change" —
     whatever the call (new / equal model, period, mode_no, seed, any combination, also calls that raise).
     Needs the model comparison to be exact on the anisotropy (`EqvExact`); see `isclose_not_exact`. -/
-theorem update_inv (eqv : Mdl ℝ → Mdl ℝ → Bool) (heq : EqvExact eqv) (st : St ℝ) (u : Upd ℝ) (h : Inv st) :
+theorem update_inv (eqv : Mdl α → Mdl α → Bool) (heq : EqvExact eqv) (st : St α) (u : Upd α) (h : Inv st) :
     Inv (update eqv st u).1 := by
   rcases u with ⟨um, us, up, umn⟩
   unfold update
@@ -257,49 +284,35 @@ theorem update_inv (eqv : Mdl ℝ → Mdl ℝ → Bool) (heq : EqvExact eqv) (st
               Bool.or_false, Bool.false_eq_true, if_false, Option.getD_none]
             exact hc
 
-theorem blank_inv : Inv (blank : St ℝ) := by
+theorem blank_inv : Inv (blank : St α) := by
   intro h; exact absurd h (by simp [blank])
 
-theorem run_inv (eqv : Mdl ℝ → Mdl ℝ → Bool) (heq : EqvExact eqv) (us : List (Upd ℝ)) (st : St ℝ) (h : Inv st) :
+theorem run_inv (eqv : Mdl α → Mdl α → Bool) (heq : EqvExact eqv) (us : List (Upd α)) (st : St α) (h : Inv st) :
     Inv (run eqv st us) := by
   induction us generalizing st with
   | nil => exact h
   | cons u us ih => exact ih _ (update_inv eqv heq st u h)
 
 /-- every state reachable from the constructor by any history of `update` calls is coherent -/
-theorem reachable_coherent (eqv : Mdl ℝ → Mdl ℝ → Bool) (heq : EqvExact eqv) (us : List (Upd ℝ)) :
+theorem reachable_coherent (eqv : Mdl α → Mdl α → Bool) (heq : EqvExact eqv) (us : List (Upd α)) :
     Inv (run eqv blank us) :=
   run_inv eqv heq us _ blank_inv
 
 /-- fresh-equivalence of the grid: in a coherent state `self._modes` is exactly the grid `_set_modes` would build now
     from the stored period, the stored model's anisotropy and the stored mode counts -/
-theorem coherent_modes_eq_derived (st : St ℝ) (h : Coherent st) :
+theorem coherent_modes_eq_derived (st : St α) (h : Coherent st) :
     st.modes = modesGrid st.modeNo (deltaK st.period st.model.anis) st.model.dim := by
   funext d j
   unfold St.modes modesGrid gridOf
   have hl : (fun d => modeLen (st.modeNo d)) = st.modeNo := funext h.grid.even
   rw [hl, h.grid.modes, h.grid.dk]
 
-/-- C17 over histories, generator level: after ANY history of constructor / setter / update calls the generator's output
-    is periodic with the period and the anisotropy it now stores -/
-theorem after_updates_periodic (eqv : Mdl ℝ → Mdl ℝ → Bool) (heq : EqvExact eqv) (us : List (Upd ℝ))
-    (sched : Sched) (hs : sched.Admissible) (sf z1 z2 : Nat → ℝ) (N X : Nat) (pos pos' : Nat → Nat → ℝ) (c : Nat → Nat → ℤ) :
-    let st := run eqv blank us
-    st.hasPeriod = true →
-    (∀ d < st.model.dim, st.period d ≠ 0) → (∀ d < st.model.dim, anisP st.model.anis d ≠ 0) →
-    (∀ d < st.model.dim, ∀ i < X, pos' d i = pos d i + (c d i : ℝ) * st.period d / anisP st.model.anis d) →
-    ∀ i, genField sched sf st.modes z1 z2 N pos' st.model.dim X i = genField sched sf st.modes z1 z2 N pos st.model.dim X i := by
-  intro st hp hL ha hshift i
-  have hc := reachable_coherent eqv heq us hp
-  rw [coherent_modes_eq_derived st hc]
-  exact periodic_gen sched hs _ _ _ sf z1 z2 N _ X pos pos' c hL ha hshift i
-
 set_option linter.unusedSimpArgs false in
 set_option linter.unreachableTactic false in
 set_option linter.unusedTactic false in
 /-- what `SRF.__call__` hands to the generator: `update(self.model, seed)`.  With an exact model comparison the
     generator afterwards stores the anisotropy of the SRF's model (in-place changes of the model included) -/
-theorem srf_call_adopts_anis (eqv : Mdl ℝ → Mdl ℝ → Bool) (heq : EqvExact eqv) (st : St ℝ) (m : Mdl ℝ) (seed : Option Nat)
+theorem srf_call_adopts_anis (eqv : Mdl α → Mdl α → Bool) (heq : EqvExact eqv) (st : St α) (m : Mdl α) (seed : Option Nat)
     (hp : st.hasPeriod = true) (hm : st.hasModel = true) (hdim : m.dim = st.model.dim) :
     (update eqv st ⟨some m, seed, none, none⟩).1.model.anis = m.anis ∧
     (update eqv st ⟨some m, seed, none, none⟩).1.model.dim = m.dim ∧
@@ -325,6 +338,64 @@ theorem srf_call_adopts_anis (eqv : Mdl ℝ → Mdl ℝ → Bool) (heq : EqvExac
       Bool.and_false, Bool.not_false, Bool.and_self, Bool.or_true, Bool.true_or, Bool.false_or, if_true, Bool.or_false]
     exact ⟨rfl, rfl, by first | exact hp | trivial | rfl, by first | trivial | rfl⟩
 
+set_option linter.unusedSimpArgs false in
+/-- a call of `update` that raises (odd `mode_no`, neither model nor seed, unsupported) leaves the generator exactly
+    as it was — on any carrier, in particular on doubles -/
+theorem update_error_unchanged (eqv : Mdl α → Mdl α → Bool) (st : St α) (u : Upd α)
+    (h : (update eqv st u).2 ≠ Out.ok) : (update eqv st u).1 = st := by
+  rcases u with ⟨um, us, up, umn⟩
+  unfold update at h ⊢
+  simp only [] at h ⊢
+  split_ifs at h ⊢ with g1 g2 g3 g4
+  · rfl
+  · rfl
+  · rfl
+  · rfl
+  · cases um <;> cases up <;> cases umn <;> cases us <;>
+      simp only [seedStep, modesStep, gridStep, isNewModel, Option.isSome_some, Option.isSome_none, Bool.or_true,
+        Bool.true_or, Bool.or_false, Bool.false_and, if_true, if_false, Bool.false_eq_true, ne_eq, not_true_eq_false,
+        Bool.or_self] at h ⊢ <;>
+      first | rfl | exact absurd rfl h | (split_ifs at h ⊢ <;> first | rfl | exact absurd rfl h)
+
+set_option linter.unusedSimpArgs false in
+set_option linter.unreachableTactic false in
+set_option linter.unusedTactic false in
+/-- a successful `update(..., mode_no=mn)` stores exactly the requested (even) number of modes on every axis
+    (`len(np.arange(-(m//2), m//2)) = m`; with the former float-step `np.arange` this failed for ~4 % of the inputs) -/
+theorem update_ok_modeNo (eqv : Mdl α → Mdl α → Bool) (st : St α) (u : Upd α) (mn : Array Nat)
+    (hu : u.modeNo = some mn) (hok : (update eqv st u).2 = Out.ok) (d : Nat) (hd : d < (u.model.getD st.model).dim) :
+    (update eqv st u).1.modeNo d = fillToDim mn d := by
+  rcases u with ⟨um, us, up, umn⟩
+  cases hu
+  unfold update at hok ⊢
+  simp only [] at hok ⊢
+  split_ifs at hok ⊢ with g1 g2 g3 g4
+  · have hev : fillToDim mn d % 2 = 0 := by
+      simp only [oddModeNo, Bool.not_eq_true, List.any_eq_false, List.mem_range, bne_iff_ne, ne_eq, not_not] at g4
+      exact g4 d hd
+    have hlen : modeLen (fillToDim mn d) = fillToDim mn d := by unfold modeLen; omega
+    cases um <;> cases up <;> cases us <;>
+      simp only [seedStep, modesStep, gridStep, isNewModel, Option.isSome_some, Option.isSome_none, Bool.or_true,
+        Bool.true_or, Bool.or_false, Bool.false_and, if_true, if_false, Bool.false_eq_true, Option.isNone_some] <;>
+      first | exact hlen | (split_ifs <;> exact hlen)
+
+end lawfree
+
+/-- C17 over histories, generator level: after ANY history of constructor / setter / update calls the generator's output
+    is periodic with the period and the anisotropy it now stores -/
+theorem after_updates_periodic (eqv : Mdl ℝ → Mdl ℝ → Bool) (heq : EqvExact eqv) (us : List (Upd ℝ))
+    (sched : Sched) (hs : sched.Admissible) (sf z1 z2 : Nat → ℝ) (N X : Nat) (pos pos' : Nat → Nat → ℝ) (c : Nat → Nat → ℤ) :
+    let st := run eqv blank us
+    st.hasPeriod = true →
+    (∀ d < st.model.dim, st.period d ≠ 0) → (∀ d < st.model.dim, anisP st.model.anis d ≠ 0) →
+    (∀ d < st.model.dim, ∀ i < X, pos' d i = pos d i + (c d i : ℝ) * st.period d / anisP st.model.anis d) →
+    ∀ i, genField sched sf st.modes z1 z2 N pos' st.model.dim X i = genField sched sf st.modes z1 z2 N pos st.model.dim X i := by
+  intro st hp hL ha hshift i
+  have hc := reachable_coherent eqv heq us hp
+  rw [coherent_modes_eq_derived st hc]
+  exact periodic_gen sched hs _ _ _ sf z1 z2 N _ X pos pos' c hL ha hshift i
+
+set_option linter.unusedSimpArgs false in
 /-- C17 over histories, SRF level: after any history, calling the SRF with its (possibly in-place changed or replaced)
     model `m` gives a field that repeats along the main axes of `m` (rows of its derotation `Q`) by the stored periods -/
 theorem srf_after_updates_periodic (eqv : Mdl ℝ → Mdl ℝ → Bool) (heq : EqvExact eqv) (us : List (Upd ℝ))
@@ -406,7 +477,7 @@ theorem srf_call_isclose_stale :
   norm_num
 
 /-- `EqvExact` is satisfiable by a comparison that really compares (exact equality of tag, dimension and anisotropy) -/
-example : EqvExact (fun a b => by classical exact decide (a.tag = b.tag ∧ a.dim = b.dim ∧ a.anis = b.anis)) := by
+example : EqvExact (fun (a b : Mdl ℝ) => by classical exact decide (a.tag = b.tag ∧ a.dim = b.dim ∧ a.anis = b.anis)) := by
   intro a b h d
   simp only [decide_eq_true_eq] at h
   rw [h.2.2]
